@@ -63,7 +63,8 @@ prop('C03', title='Every expressed Interest completes exactly once with the righ
                 '(one fresh entry registered before the Interest is sent, coroutine waits on that future); legacy front-end: '
                 'name_tree.InterestTreeNode.nack_interest / satisfy / timeout / cancel (same clauses, completion with the Data itself) and '
                 'the table handlers; express / express_interest (refusals before any effect, data flow into make_interest and '
-                'express_raw_interest, nonce, signer selection) and _clean_up (every pending node cancelled once, tables emptied).',
+                'express_raw_interest, nonce, signer selection), _clean_up (every pending node cancelled once, tables emptied) and '
+                'main_loop (connect, start task, run, shut the face down however run() ends, then clean up, then await the start task).',
      level_note='Bounded by history length and alphabet (see evidence.bounded); liveness rests on asyncio.wait_for. The composition of the '
                 'per-function contracts over all event histories (a global exactly-once theorem) is NOT proved: asyncio futures / tasks, '
                 'pygtrie and wait_for are assumed interfaces, futures of distinct entries are assumed distinct.',
@@ -210,7 +211,9 @@ prop('C17', title='Prefix registration speaks the forwarder management protocol 
                 'command, True iff the reply decodes to status 200, every other reply / exception gives False, nothing raised; '
                 'parse_response raise-set and field flow; legacy front-end register / unregister (handler installed or removed first, a '
                 'duplicate refused before any command, one rib command with 1 s lifetime under the semaphore, True iff status 200, every '
-                'other outcome False). Command layout, concurrency and auto-registration are bounded.',
+                'other outcome False); auto-registration: main_loop.starting_task (nested-function contract, any number of remembered '
+                'routes) registers every route exactly once, in order, before the start coroutine runs. Command layout and concurrency '
+                'are bounded.',
      level_note='asyncio (Semaphore, sleep advances the ms clock by >= 1), the application and the clock are assumed models.',
      technique=T_MIXED)
 prop('C18', title='State-vector sync merges monotonically and announces exactly when needed', level='proof',
